@@ -90,7 +90,7 @@ pub(crate) fn is_sy_metadata(relative_path: &Path) -> bool {
 /// other, and a group whose members were each rebuilt through their own working file all ended
 /// up on separate inodes. After the transfers every destination name of a multiply-linked source
 /// file that holds the same file as the group's first name (size and time stamp, as the planner
-/// compares them) is moved onto that name's inode: linked under the working name, then renamed
+/// compares them: the same size, time stamps less than two whole seconds apart) is moved onto that name's inode: linked under the working name, then renamed
 /// into place. Destinations that are not local have no entry here: nothing happens.
 #[cfg(unix)]
 fn relink_hard_link_groups(
@@ -107,10 +107,16 @@ fn relink_hard_link_groups(
                 Ok(m) if m.is_file() => m,
                 _ => continue,
             };
+            // the time stamps as the planner compares them: less than two whole seconds apart. (They
+            // had to be identical: a name that an older tool or tar had left with a whole-second
+            // stamp was up to date for the planner, never transferred, and never joined its group.)
+            let nanos = |m: &std::fs::Metadata| {
+                i128::from(m.mtime()) * 1_000_000_000 + i128::from(m.mtime_nsec())
+            };
             let same_file = |k: &std::fs::Metadata| {
                 k.dev() == meta.dev()
                     && k.len() == meta.len()
-                    && (k.mtime(), k.mtime_nsec()) == (meta.mtime(), meta.mtime_nsec())
+                    && (nanos(k) - nanos(&meta)).abs() / 1_000_000_000 <= 1
             };
             let Some((keep, keep_meta)) = kept.iter().find(|(_, k)| same_file(k)) else {
                 kept.push((name, meta));
